@@ -43,7 +43,7 @@ CLAIMS.update({
 CLAIMS.update({
  'C04': dict(text='Proof (Coq) + correspondence, partial. Theorems: the library result is a union over groups, invariant under any assignment / order of groups (union_schedule_invariant); under the modelled CPython 3.12 '
     'write policy (TextIOWrapper pending chunk + BufferedWriter, 8192 bytes) one f.write per statement line gives raw write(2) payloads made of whole lines only, for all line counts and lengths (payloads_whole_lines); any '
-    'interleaving of atomic appends holds exactly the payloads of all writers (interleaving_preserves_payloads). Correspondence: an LD_PRELOAD shim logs every write(2) to the output files for 1/2/4(/32) processes: complete, '
+    'interleaving of atomic appends holds exactly the payloads of all writers (interleaving_preserves_payloads); in output_dir mode every group file holds the same lines whatever order the groups complete in (group_files_independent_of_schedule). Correspondence: an LD_PRELOAD shim logs every write(2) to the output files for 1/2/4(/32) processes: complete, '
     'ending in a line feed, sizes equal to the model prediction; forced schedules keep the multiset of lines; library result independent of number_of_processes.',
     note='Partial: the write policy is a model of CPython, not of /repo; atomicity of write(2) on O_APPEND is assumed; schedules are sampled (delays), not enumerated; multiprocessing is not modelled.',
     technique='Coq proofs (union over any schedule; write-policy invariant; merge permutation) + write(2)-level correspondence', ref='7 C04'),
@@ -97,10 +97,13 @@ CLAIMS.update({
          '(subject, predicate, object, language / datatype, graph); a whole rule over the preprocessed frame gives exactly the statements of the generation rules for its rows; the generation rules read on the surface document and read rule by rule on the '
          'normalised table coincide (document_rules_are_rule_table_rules); and END TO END (engine_document_is_generation_rules_document): for every document of constant / reference / template maps (classes, subject graph maps, '
          'language / datatype maps), every table and configuration, N-QUADS and N-TRIPLES, what the engine materialises from the normalised rule table over the delivered rows is exactly Spec.spec_lines of the surface document over the same rows. '
-         'The hypotheses are the complements of recorded findings (template escapes, reserved column names, unescaped constant text). Joins, quoted maps and functions have their own theorems (C07, C13, C14); their '
+         'The hypotheses are the complements of recorded findings (template escapes, reserved column names, unescaped constant text). The same END-TO-END equality is proved with referencing object maps '
+         '(engine_document_with_joins_is_generation_rules_document, Proofs/DocJoinP.v: join conditions, and R2RML\'s plain form without condition over the same logical source), with quoted subject maps and with quoted object maps '
+         '(Props/C13.v, Proofs/DocQuotedP.v / DocQuotedObjP.v); the fragment predicates (Model/Fragment.v theorem_applies*) are decidable and are evaluated by the extracted runner on every generated case: inside the fragments a '
+         'completed run that differs from the Spec cannot be attributed to a recorded finding. Functions have their own theorems (C14); the '
          'composition and the normalisation from files are decided on every run by comparing the implementation with BOTH the extracted Engine model and the extracted Spec on generated mappings x tables.',
     note='Trusted: Coq kernel, extraction + driver, the translator, Model/Spec.v as the reading of the generation rules, the pandas / rdflib behaviour the Engine model transcribes (measured by the correspondence). '
-         'Not proved: Engine = Spec for joins composed with quoted maps and nested executions.',
+         'Not proved: Engine = Spec for joins composed with quoted maps, quoted maps with join conditions or nested deeper than one level, and nested executions.',
     technique='Coq proofs (template loop = substitution; engine term/row/rule = generation rules) + ' + CORR, ref='0.3 C01'),
  'C03': dict(
     text='Proof (Coq) + correspondence. Theorems: the sort-and-scan of the partitioner separates two rules at a position only if their invariants are prefix-incomparable (prefix_scan_separates_incomparable, '
@@ -119,7 +122,8 @@ CLAIMS.update({
     text='Proof (Coq) + correspondence. Theorems: _merge_data yields exactly the pairs (child row, parent row) that agree on every join condition with non-null values -- the inner equi-join -- for all frames '
          '(merge_is_inner_equijoin); on frame rows that relation is the join condition of the generation rules (engine_join_is_spec_join, spec_join_rows); a joined row gives exactly the statement whose subject, predicate and graph come from the child row and whose object is the parent\'s subject term from the parent row (join_row_statement); a whole referencing rule yields exactly the statements of the matching pairs of the two preprocessed frames (join_rule_statements). Correspondence: pandas merge on generated keys (duplicates, NULLs, separator-ambiguous values, 1-3 conditions, '
          'self-joins with permuted conditions) against the Engine model and the Spec.',
-    note='Known finding: self-join elimination (NULL / non-unique key), refuted witness in Findings/C07.v.', technique='Coq proof (inner equi-join) + ' + CORR, ref='0.3 C07'),
+    note='Known finding: self-join elimination (NULL / non-unique key), refuted witness in Findings/C07.v. Document level (document_with_joins_is_generation_rules_document): for documents whose predicate-object maps hold '
+         'ordinary or referencing object maps, engine(document) = generation rules(document) on the delivered tables, both formats (Proofs/DocJoinP.v).', technique='Coq proof (inner equi-join; document-level join theorem) + ' + CORR, ref='0.3 C07'),
  'C08': dict(
     text='Proof (Coq) + correspondence. Theorems over the normalisation chain and the row tail of the materializer: a predicate-object map is placed in exactly its own and the subject map\'s graphs '
          '(pom_gets_exactly_its_graphs), the default graph iff none or rml:defaultGraph (default_graph_iff_none, default_graph_has_empty_component), class statements follow the subject graphs, N-TRIPLES output is the '
@@ -156,8 +160,10 @@ CLAIMS.update({
          'every statement is << t >> p o [g] (resp. s p << t >> [g]) with t exactly the triple the generation rules give the quoted map for that row, and none iff a part is missing (quoted_subject_embeds_the_quoted_triple_partial, '
          'quoted_rule_statements_partial, quoted_object_embeds_the_quoted_triple_partial, quoted_object_rule_statements_partial); only asserted rules contribute and assertedness is inherited from the triples map (only_asserted_rules_contribute, rules_inherit_assertedness). '
          'Correspondence: nestings of depth 1-3, subject / object / both, joins, asserted / non-asserted, NULLs, against the Engine model and the (depth-recursive) Spec.',
-    note='Partial: quoted maps with join conditions and deeper nestings by correspondence only. Known finding: repeated joins on one frame fail.',
-    technique='Coq proof (quoted subject embeds the quoted triple) + ' + CORR, ref='0.3 C13'),
+    note='Document level: for documents of plain triples maps and triples maps that quote a plain one in their subject map (engine_document_with_quoted_subjects_is_generation_rules_document) or in object maps '
+         '(engine_document_with_quoted_objects_is_generation_rules_document), one level, same rows, asserted or not: engine(document) = generation rules(document), both formats. '
+         'Partial: quoted maps with join conditions and deeper nestings by correspondence only. Known finding: repeated joins on one frame fail.',
+    technique='Coq proof (quoted subject / object embeds the quoted triple; document-level theorems) + ' + CORR, ref='0.3 C13'),
  'C14': dict(
     text='Proof (Coq), partial + correspondence. Theorems: _materialize_fnml_template substitutes the raw row values (fnml_template_is_substitution); for an execution over constants, references and templates the values '
          'for a row are exactly the function applied to that row\'s arguments -- none for a null result or null token, one per element of a list result, failure iff the function raises '
